@@ -25,6 +25,10 @@ FULL_CHUNKS = 256            # chunks of 256 x-values x all 65536 y-values
 def build(kind):
     if kind == "fast":
         return vlib.compile_cxx(SRC, "c09", std="c++14", opt="-O2", san="none", libs=["-lmpfr", "-lgmp"])
+    if kind == "eh":
+        # the library's error handling compiled in: detail::raise/select/rounded/... take their `#if HALF_ERRHANDLING` branches
+        return vlib.compile_cxx(SRC, "c09eh", std="c++14", opt="-O2", san="none", libs=["-lmpfr", "-lgmp"],
+                                defines=["HALF_ERRHANDLING_FLAGS=1", "HALF_ERRHANDLING_ERRNO=1"])
     return vlib.compile_cxx(SRC, "c09asan", std="c++14", opt="-O1", san="asan", libs=["-lmpfr", "-lgmp"])
 
 
@@ -39,8 +43,8 @@ def run(ctx):
 
     def b(kind):
         bins[kind] = build(kind)
-    vlib.parallel([lambda: b("fast"), lambda: b("asan")], workers=2)
-    fast, asan = bins["fast"], bins["asan"]
+    vlib.parallel([lambda: b("fast"), lambda: b("asan"), lambda: b("eh")], workers=3)
+    fast, asan, eh = bins["fast"], bins["asan"], bins["eh"]
 
     # soft deadline: no new harness process is started after it; whatever was not started is reported as a cap
     soft = min(ctx.deadline - 75, ctx.t0 + (170 if quick else 1560))
@@ -92,6 +96,26 @@ def run(ctx):
     for fn in BINARY:
         jobs.append(job("sanitizer", asan, ["--noref", "--pairs", fn, "alpha1", "1", "0", "1"], "c09-asan"))
     jobs.append(job("sanitizer", asan, ["--noref", "--triples", "cube0", "1", "0", "1"], "c09-asan"))
+    # 6a. special operands in the default build: alphabet 0 + EVERY NaN bit pattern (quiet and signalling), all ordered pairs of every
+    #     binary function; every NaN pattern in each position of hypot(x,y,z)
+    for fn in BINARY:
+        jobs.append(job("special-operands", fast, ["--pairs", fn, "spec", "1", "0", "1"], "c09"))
+    jobs.append(job("special-operands", fast, ["--triples", "nans"], "c09"))
+    # 6c. second build flavour: error handling compiled in (-DHALF_ERRHANDLING_FLAGS=1 -DHALF_ERRHANDLING_ERRNO=1), SAME oracle:
+    #     returned values must not depend on whether error reporting is compiled in
+    for fn in UNARY:
+        for lo, hi in ranges(UNARY_HEAVY.get(fn, 1)):
+            jobs.append(job("errhandling", eh, ["--unary", fn, str(lo), str(hi)], "c09-eh"))
+    for fn in FLOATLIKE:
+        jobs.append(job("errhandling", eh, ["--floatlike", fn], "c09-eh"))
+    for fn in SCALE:
+        jobs.append(job("errhandling", eh, ["--scale", fn, "0", "65536"], "c09-eh"))
+    for fn in BINARY:
+        jobs.append(job("errhandling", eh, ["--pairs", fn, "spec", "1", "0", "1"], "c09-eh"))
+        jobs.append(job("errhandling", eh, ["--pairs", fn, "alpha1", "1", "0", "1"], "c09-eh"))
+    jobs.append(job("errhandling", eh, ["--triples", "nans"], "c09-eh"))
+    for k in range(4):
+        jobs.append(job("errhandling", eh, ["--triples", "cube0", "1", str(k), "4"], "c09-eh"))
     jobs.append(job("info", fast, ["--info"], "c09"))
     # 6b. three-argument hypot: alphabet-0 cube with integer verdict + MPFR on every triple; derived family (z around 2^-k max(|x|,|y|),
     #     k = 10..20, three positions) over all alphabet-1 pairs; all exact-tie pairs of sqrt(x^2+y^2) x tiny z
@@ -119,7 +143,7 @@ def run(ctx):
 
     # samples: ctx keeps the first 12 it sees (completion order); show one or two of every kind of case instead
     picked = []
-    for prefix, n in (("exp(", 1), ("tgamma(", 2), ("sincos.cos(", 1), ("round(", 1), ("modf(", 1), ("lrint(", 1), ("ldexp(", 1), ("pow(", 1), ("atan2(", 1),
+    for prefix, n in (("exp(", 1), ("tgamma(", 2), ("sincos.cos(", 1), ("round(", 1), ("modf(", 1), ("lrint(", 1), ("ldexp(", 1), ("scalbln(", 1), ("pow(", 1), ("atan2(", 1),
                       ("remquo(", 1), ("hypot(", 4)):
         picked += sorted(set(x for x in all_samples if x.startswith(prefix)))[:n]
     if picked:
@@ -136,7 +160,8 @@ def run(ctx):
         "(exp exp2 expm1 log log10 log2 log1p cbrt sin cos tan sincos(both outputs) asin acos atan sinh cosh tanh asinh acosh atanh erf erfc lgamma tgamma), verdict = MPFR correctly rounded to binary16 "
         "(precision 11, emin -23, emax 16, mpfr_subnormalize), 0 ULP for functions documented exact to rounding, <= 1 ULP for those documented possibly 1 ULP off (expm1 log1p erf erfc lgamma tgamma pow atan2), "
         "NaN/infinity/exact-zero results exact; (2) all 2^16 inputs of ceil floor trunc round rint nearbyint frexp modf ilogb logb and all finite inputs of lround llround lrint llrint against the float functions; "
-        "(3) ldexp scalbn scalbln on all halves x {-60..60, INT_MIN, INT_MAX}; (4) hypot pow atan2 fmod remainder remquo fdim fmax fmin nextafter copysign on all ordered pairs of a 1000-value boundary alphabet "
+        "(3) ldexp scalbn scalbln on all halves x an exponent alphabet in each entry point's own exponent type: -60..60, INT_MIN, INT_MIN+1, -2^30, -2^16, +-61, 2^16, 2^30, INT_MAX-1, INT_MAX, and for scalbln(half,long) also "
+        "+-(2^31-1), +-2^31, +-(2^31+1), +-(2^32-1), +-2^32, +-(2^32+1), +-(2^32+-20), +-2^33, +-2^40, +-2^48, +-2^62, LONG_MAX-32, LONG_MIN+16, oracle = correctly rounded x*2^e; (4) hypot pow atan2 fmod remainder remquo fdim fmax fmin nextafter copysign on all ordered pairs of a 1000-value boundary alphabet "
         "(every exponent x 16 mantissas x sign + inf/NaNs) with MPFR deciding every pair, and of a 3976-value alphabet (every exponent x 64 mantissas x sign + inf/NaNs) with an exact/long-double reference and MPFR "
         "for every pair within 2^-26 ulp of a rounding boundary, every mismatch and every accepted 1-ULP difference; "
         "(4c) three-argument hypot(x,y,z), verdict = correctly rounded sqrt(x^2+y^2+z^2) by exact 128-bit integer arithmetic (cross-checked with MPFR): all ordered triples of a 315-value alphabet "
@@ -146,16 +171,20 @@ def run(ctx):
          "all ordered triples of the 1000-value alphabet, the derived family (z around 2^-k max(|x|,|y|), k = 10..20, three positions) over all ordered pairs of the 3976-value alphabet, and for all 43558 exact-tie pairs "
          "(x,y) ALL 2^16 z in position (x,y,z) plus the tiny-z list in the other two positions") +
         ("" if quick else "; (5) ALL 2^32 ordered pairs of each of these 11 binary functions, same fast reference + MPFR scheme") +
-        ". distinct_nontrivial = cases whose reference result is finite, non-zero and different from the argument(s) (for integer-valued results: different from the argument); every (function, argument) is visited once, so cases are distinct by construction; "
+        "; (6) special operands: all ordered pairs over {315-value alphabet + EVERY NaN bit pattern} for the 11 binary functions and every NaN pattern in each position of hypot(x,y,z); "
+        "(7) a second build with the library's error handling compiled in (HALF_ERRHANDLING_FLAGS=1, HALF_ERRHANDLING_ERRNO=1) re-runs parts 1-3, the alphabet-1 pairs, the special operands and the 315-value hypot3 cube against the SAME oracle "
+        "(a signalling-NaN operand may give NaN there; counted as evaluations, not again as distinct). distinct_nontrivial = cases whose reference result is finite, non-zero and different from the argument(s) (for integer-valued results: different from the argument); every (function, argument) is visited once, so cases are distinct by construction; "
         "the alphabet sweeps overlap each other (and the full sweep) by design and are counted as evaluated.")
     ctx.assumptions += [
         "MPFR 4.2 / GMP are the reference; it is cross-checked on every MPFR-decided case against MPFR at 256 bits rounded by an independent integer routine, and where decisive against glibc long double; special values against glibc float. A reference disagreement is a harness error",
-        "library configuration as shipped: HALF_ROUND_STYLE = to nearest, no HALF_ARITHMETIC_TYPE, HALF_ERRHANDLING off (floating-point exception flags / errno are not observable and not judged), software conversions (no -mf16c)",
+        "library configurations: as shipped (HALF_ROUND_STYLE = to nearest, no HALF_ARITHMETIC_TYPE, HALF_ERRHANDLING off, software conversions) for everything, plus HALF_ERRHANDLING_FLAGS=1 + HALF_ERRHANDLING_ERRNO=1 for the parts listed in rule; "
+        "only returned values are judged, never the exception flags / errno themselves; HALF_ERRHANDLING_FENV and the THROW_* macros are not built",
+        "with error handling compiled in, a signalling NaN operand that Annex F would let a quiet NaN be ignored for (fmax fmin hypot pow) yields NaN by design of detail::select; Annex F does not define signalling NaNs, NaN is accepted there",
         "NaN results are judged as 'is a NaN' (sign and payload free); the sign of fmax/fmin(+-0, -+0) is free (C leaves it open)",
         "remquo: value judged exactly, quo judged for sign and the low 3 bits as C requires; not judged when C leaves quo unspecified (x infinite/NaN, y zero/NaN)",
         "lround/llround/lrint/llrint only on finite inputs (C leaves the rest unspecified); frexp exponent only for finite inputs",
         "three-argument hypot is decided over alphabets and derived families (stated in rule), not over all 2^48 triples; a triple that belongs to several families is evaluated in each but counted once (conservatively) in distinct_nontrivial",
-        "nexttoward, fma and sqrt are not part of this check (fma/sqrt: C08); scalbln with exponents beyond int is reported as information only",
+        "nexttoward, fma and sqrt are not part of this check (fma/sqrt: C08); scalbln within 31 of LONG_MAX / 10 of LONG_MIN is reported as information only (the unmodified code overflows a long there)",
         "g++ 12 -O2 on x86-64 (plus an ASan/UBSan-bounds -O1 build over all unary inputs and the alphabet-1 pairs)",
     ]
     if quick:
@@ -163,5 +192,5 @@ def run(ctx):
 
 
 def replay(ctx, rec):
-    kind = "asan" if rec.get("harness") == "c09-asan" else "fast"
+    kind = {"c09-asan": "asan", "c09-eh": "eh"}.get(rec.get("harness"), "fast")
     ctx.run_harness(build(kind), rec["args"], tag=rec.get("harness") or "c09")
